@@ -42,6 +42,7 @@ type Script struct {
 	// StyleMarks: style id -> run colour written into the registered style object by the latest in-place change (the only way the
 	// API offers to change a style); the next save, and every later one, has to show it
 	StyleMarks map[string]string
+	ownStyles  map[string]bool // custom styles this script created itself
 	usedStyles map[string]bool
 }
 
@@ -819,7 +820,15 @@ func init() {
 					}
 				}
 				sort.Strings(bases)
-				st := sm.CreateCustomStyle(id, s.Str(), []style.StyleType{"paragraph", "character", "table", "numbering", ""}[r.Intn(5)], bases[r.Intn(len(bases))])
+				styleType, basedOn := []style.StyleType{"paragraph", "character", "table", "numbering", ""}[r.Intn(5)], bases[r.Intn(len(bases))]
+				st := sm.CreateCustomStyle(id, s.Str(), styleType, basedOn)
+				if s.ownStyles == nil {
+					s.ownStyles = map[string]bool{}
+				}
+				if !sm.StyleExists(id) || st != nil {
+					s.ownStyles[id] = st != nil
+				}
+				s.Log = append(s.Log, fmt.Sprintf("(CreateCustomStyle %q type=%q basedOn=%q)", id, styleType, basedOn))
 				if st != nil && r.Bool() {
 					if p := s.pickPara(); p != nil {
 						p.SetStyle(id)
@@ -841,7 +850,9 @@ func init() {
 					// one of the caller's own styles that no paragraph uses (it may be the base of one that is used)
 					var own []string
 					for _, st := range sm.GetAllStyles() {
-						if st != nil && st.CustomStyle && strings.HasPrefix(st.StyleID, "Cust") && !s.usedStyles[st.StyleID] {
+						// only styles this very script created: a style the document came with (from a template, from a file) may
+						// be used by content the script does not know
+						if st != nil && st.CustomStyle && s.ownStyles[st.StyleID] && !s.usedStyles[st.StyleID] {
 							own = append(own, st.StyleID)
 						}
 					}
@@ -854,7 +865,9 @@ func init() {
 					return // the id collides with a style a paragraph of this script uses
 				}
 				delete(s.StyleMarks, id)
-				sm.RemoveStyle([]string{"Subtitle", id, id}[r.Intn(3)])
+				victim := []string{"Subtitle", id, id}[r.Intn(3)]
+				sm.RemoveStyle(victim)
+				s.Log = append(s.Log, fmt.Sprintf("(RemoveStyle %q)", victim))
 			case 3:
 				sm.GetStyleWithInheritance([]string{"Heading1", "Normal", id, "missing"}[r.Intn(4)])
 				sm.GetAllStyles()
